@@ -48,9 +48,11 @@ pub fn check(cx: &Cx, rep: &mut Report) {
                 let terminating = af.task_end.is_some() || (cx.mt && !restart_attempted && af.incs.len() == 1);
                 if terminating && reap.map(|r| t_in < r).unwrap_or(true) {
                     rep.premise("C05.R1.no_termination_while_held");
-                    // (on real threads a parked send future releases its channel clone inside the future, before the
-                    // harness can log it: only handles proper count there)
-                    let c = if cx.mt { af.arc_count_at(t_in) } else { af.count_at(t_in) };
+                    // (only handles proper count: a parked `Sender::send` future may keep the mailbox open - the pinned
+                    // library's does, which the rules on draining allow for - but it is not one of the strong handles the
+                    // property names, so an actor may also end while one is pending; and on real threads it releases its
+                    // channel clone inside the future, before the harness can log it)
+                    let c = af.arc_count_at(t_in);
                     if c > 0 {
                         rep.fail(P, "R1", format!("terminated_with_strong={c}"), format!("actor tag {} began stopped() at #{t_in} while the harness still held {c} strong handle(s) and nobody had stopped it", af.tag), vec![t_in]);
                     }
